@@ -67,7 +67,13 @@ func (l *zzLedger) DeleteMetadata(ctx context.Context, p command.Parameters, tar
 	return l.outcome(ActionDeleteMetadata, p.IdempotencyKey)
 }
 
-var zzActions = []string{ActionCreateTransaction, ActionAddMetadata, ActionRevertTransaction, ActionDeleteMetadata, "SOMETHING_ELSE"}
+var zzActions = []string{ActionCreateTransaction, ActionAddMetadata, ActionRevertTransaction, ActionDeleteMetadata, "SOMETHING_ELSE", zzMalformed, zzBadTarget}
+
+// zzBadTarget: a metadata element on a kind of target that does not exist
+const zzBadTarget = "DELETE_METADATA on an unknown target type"
+
+// zzMalformed: a known action whose payload does not decode -- a failing element like any other
+const zzMalformed = "ADD_METADATA with a payload that does not decode"
 
 var zzPayloads = map[string]string{
 	ActionCreateTransaction: `{"postings":[{"source":"world","destination":"bank","amount":100,"asset":"USD/2"}],"metadata":{"k":"v"}}`,
@@ -75,6 +81,23 @@ var zzPayloads = map[string]string{
 	ActionRevertTransaction: `{"id":3,"force":false}`,
 	ActionDeleteMetadata:    `{"targetType":"TRANSACTION","targetId":3,"key":"k"}`,
 	"SOMETHING_ELSE":        `{}`,
+	zzMalformed:             `{"targetType":"ACCOUNT","targetId":12,"metadata":"not an object"}`,
+	zzBadTarget:             `{"targetType":"LEDGER","targetId":"x","key":"k"}`,
+}
+
+// zzNoCall: elements that fail before any backend call
+func zzNoCall(action string) bool {
+	return action == "SOMETHING_ELSE" || action == zzMalformed || action == zzBadTarget
+}
+
+func zzWire(action string) string {
+	switch action {
+	case zzMalformed:
+		return ActionAddMetadata
+	case zzBadTarget:
+		return ActionDeleteMetadata
+	}
+	return action
 }
 
 func ZZ_C18N() int { return 6 }
@@ -86,18 +109,20 @@ func ZZ_C18(shape int) {
 	n := shape%3 + 1
 	viaHTTP := shape >= 3
 	bulk := make(Bulk, n)
+	kinds := make([]string, n)
 	l := &zzLedger{fail: make([]bool, n), class: make([]int, n)}
 	wantFail := make([]bool, n)
 	for i := 0; i < n; i++ {
 		a := zzActions[verifhook.Choose(fmt.Sprintf("action%d", i), len(zzActions))]
-		bulk[i] = Element{Action: a, IdempotencyKey: fmt.Sprintf("ik-%d", i), Data: []byte(zzPayloads[a])}
+		bulk[i] = Element{Action: zzWire(a), IdempotencyKey: fmt.Sprintf("ik-%d", i), Data: []byte(zzPayloads[a])}
+		kinds[i] = a
 		wantFail[i] = verifhook.Bool(fmt.Sprintf("fails%d", i))
 	}
 	cont := verifhook.Bool("continueOnFailure")
 	// the i-th backend call belongs to the i-th element with a known action
 	ci := 0
 	for i := 0; i < n; i++ {
-		if bulk[i].Action == "SOMETHING_ELSE" {
+		if zzNoCall(kinds[i]) {
 			continue
 		}
 		l.fail[ci] = wantFail[i]
@@ -147,13 +172,13 @@ func ZZ_C18(shape int) {
 		ret, errorsInBulk, err = ProcessBulk(context.Background(), l, bulk, cont)
 	}
 	verifhook.Reach("processed")
-	verifhook.Assert(err == nil, "C18 well-formed bulk is processed")
+	verifhook.Assert(err == nil, "C18 a bulk is answered element by element (no processed element is left without its result)")
 	// reference: elements are processed in order; an unknown action is a failing element
 	var processed []int
 	anyFailed := false
 	for i := 0; i < n; i++ {
 		processed = append(processed, i)
-		failed := wantFail[i] || bulk[i].Action == "SOMETHING_ELSE"
+		failed := wantFail[i] || zzNoCall(kinds[i])
 		if failed {
 			anyFailed = true
 			if !cont {
@@ -163,7 +188,7 @@ func ZZ_C18(shape int) {
 	}
 	var wantCalls []zzCall
 	for _, i := range processed {
-		if bulk[i].Action != "SOMETHING_ELSE" {
+		if !zzNoCall(kinds[i]) {
 			wantCalls = append(wantCalls, zzCall{bulk[i].Action, bulk[i].IdempotencyKey})
 		}
 	}
@@ -176,7 +201,7 @@ func ZZ_C18(shape int) {
 	verifhook.Assert(len(ret) == len(processed), "C18 one result per processed element")
 	if len(ret) == len(processed) {
 		for pos, i := range processed {
-			failed := wantFail[i] || bulk[i].Action == "SOMETHING_ELSE"
+			failed := wantFail[i] || zzNoCall(kinds[i])
 			if failed {
 				verifhook.Assert(ret[pos].ResponseType == "ERROR" && ret[pos].ErrorCode != "", "C18 failing element answered with an error at its position")
 			} else {
